@@ -36,9 +36,26 @@ class UQSim(DS.DimwiseSim):
         self.op = UncertaintyQuantification(self.f, distris, a, b, print_level=100, log_level=100) if False else UncertaintyQuantification(self.f, distris, a, b)
         self.op.log_util.set_print_level(100)
         self.op.log_util.set_log_level(100)
+        had_prelude = False
+        if c.get("prelude") and all(math.isfinite(x) for x in list(c["a"]) + list(c["b"])):
+            # the operation object has a past: it was used before with a weighted grid of the other boundary setting (same
+            # distributions, same domain) for a short adaptive run; whatever the operation and its distribution objects remember
+            # from that must not reach the run under observation
+            g0 = GlobalTrapezoidalGridWeighted(a, b, self.op, boundary=not c["boundary"])
+            self.op.set_grid(g0)
+            self.op.set_expectation_variance_Function()
+            sa0 = SpatiallyAdaptiveSingleDimensions2(a, b, operation=self.op, norm=2, grid_surplusses=self.op.get_grid(), margin=0.9,
+                                                     rebalancing=False, version=6, print_level=100, log_level=100)
+            err0 = SimErrorCalculator(self.rk + "-prelude", p_zero=0.0, p_tie=0.0, mode="mix", use_epoch=False)
+            with seams.quiet():
+                sa0.performSpatiallyAdaptiv(1, c["lmax"], err0, tol=-1.0, max_evaluations=c["prelude"], print_output=False)
+            self.ctx.probe("operation_used_before_with_other_boundary_setting")
+            self.ctx.fault("operation_reused")
+            had_prelude = True
         grid = GlobalTrapezoidalGridWeighted(a, b, self.op, boundary=c["boundary"])
         self.op.set_grid(grid)
-        self.op.set_expectation_variance_Function()
+        if not had_prelude:       # (the moment function is built on top of the operation's current function: set once)
+            self.op.set_expectation_variance_Function()
         if reference is not None:
             self.op.set_reference_solution(np.array(reference, dtype=float))
         norm = 2 if "norm" not in c else (np.inf if c["norm"] == "inf" else c["norm"])
@@ -248,7 +265,7 @@ class C15(Check):
             "performed split is checked (strictly inside, equal probability halves within the measured accuracy of the family's inverse cdf). "
             "A state is the refined structure; distinct_nontrivial counts distinct refined structures. The 1-D weight clauses (non-negative, "
             "sum 1, uniform = trapezoid / length) are a stateless side-oracle on every 1-D grid reached, counted under pure_side_oracle_evaluations")
-    expected_probes = ["rebalancing", "new_lmax"]
+    expected_probes = ["rebalancing", "new_lmax", "operation_used_before_with_other_boundary_setting"]
     assumptions = ["the split bound is calibrated per split from the measured round-trip error |cdf(ppf(q)) - q| of the distribution, not guessed",
                    "splits of intervals whose probability mass underflows (< 1e-13) are only required to lie strictly inside (documented midpoint fallback)"]
     excluded_configs = ["Laplace (not among the families the statement names)", "infinite support with boundary points on (points at infinity)",
@@ -303,10 +320,14 @@ class C15(Check):
                "volume_weighting": r.random() < 0.5, "margin": r.choice([0.0, 0.5, 0.9, 0.9, 1.0]), "rebalancing": r.random() < 0.3,
                "version": 6, "p_zero": r.choice([0.0, 0.3, 0.6]), "p_tie": r.choice([0.0, 0.2]), "lmin": 1, "lmax": r.choice([2, 2, 3]),
                "evals": r.randint(1, 6 if tier == "quick" else 9), "max_intervals": 30, "recalc": None, "clock_jumps": r.random() < 0.2}
+        p = stream(rk, "prelude")
+        cfg["prelude"] = p.choice([0, 12, 30]) if p.random() < 0.3 else 0     # point limit of an earlier run on the same operation object
         return {"config": cfg, "ops": []}
 
     def simplify(self, s):
         c = s["config"]
+        if c.get("prelude"):
+            n = copy.deepcopy(s); n["config"]["prelude"] = 0; yield n
         for key, v in (("rebalancing", False), ("volume_weighting", False), ("smooth", True), ("p_tie", 0.0), ("lmax", 2), ("e", 0.0), ("c", 2.0), ("clock_jumps", False)):
             if c[key] != v:
                 n = copy.deepcopy(s); n["config"][key] = v; yield n
